@@ -87,8 +87,16 @@ func c14reply(q *dns.Msg) []byte {
 }
 
 // a 12-byte header announcing one question, followed by a label that runs past the end
+// c14garbage: an undecodable reply. Two shapes, alternating: a label that runs past the end, and a question name
+// that is a compression pointer to itself (C0 0C at offset 12) — a decoder that does not bound pointer chains never
+// comes back, and then neither does the connection's reader.
+var c14garbageN atomic.Int64
+
 func c14garbage(id uint16) []byte {
 	b := []byte{0, 0, 0x81, 0x80, 0, 1, 0, 0, 0, 0, 0, 0, 0x3f, 'x', 'y'}
+	if c14garbageN.Add(1)%2 == 0 {
+		b = []byte{0, 0, 0x81, 0x80, 0, 1, 0, 0, 0, 0, 0, 0, 0xC0, 0x0C, 0, 1, 0, 1}
+	}
 	binary.BigEndian.PutUint16(b, id)
 	return b
 }
